@@ -32,8 +32,9 @@ def _execute(arg, want_info=False):
     out = io.StringIO()
     old_stdout = pybtex.io.stdout
     pybtex.io.stdout = out
-    old_handler = signal.signal(signal.SIGALRM, U.on_alarm)
-    signal.setitimer(signal.ITIMER_REAL, 20)
+    # CPU time of this process, not wall-clock time: a busy machine must not look like a diverging program
+    old_handler = signal.signal(signal.SIGVTALRM, U.on_alarm)
+    signal.setitimer(signal.ITIMER_VIRTUAL, 10)
     try:
         with errors.capture() as captured:
             parsed = [U.enc_command(c) for c in bst.parse_stream(io.StringIO(text))]
@@ -77,7 +78,7 @@ def _execute(arg, want_info=False):
             try:
                 text_out = it.run(bst.parse_stream(io.StringIO(text)), list(cites), [io.StringIO(bib)], 2)
             except U.Timeout:
-                raise
+                return [3], info      # the run does not end: compared with the model's OutOfFuel
             except U.OutOfDomain:
                 return [3], info
             except PybtexError:
@@ -88,12 +89,15 @@ def _execute(arg, want_info=False):
                 return [2], info
             return [0, U.enc_state(it, text_out, captured, info, out.getvalue())], info
     finally:
-        signal.setitimer(signal.ITIMER_REAL, 0)
-        signal.signal(signal.SIGALRM, old_handler)
+        signal.setitimer(signal.ITIMER_VIRTUAL, 0)
+        signal.signal(signal.SIGVTALRM, old_handler)
         pybtex.io.stdout = old_stdout
 
 def impl_run(arg):
-    return norm(_execute(arg)[0])
+    try:
+        return norm(_execute(arg)[0])
+    except U.Timeout:
+        return [3]
 
 FUNCS = {1: ('bst.parse + Interpreter.run (program, citations, database)', impl_run, ('T', ('L', 'X'), ('L', 'S'), 'S'))}
 
@@ -107,7 +111,10 @@ def _needs_run(cmds):
     return 'read' in [S(c[0]).lower() for c in cmds] or 'format.name$' in U.all_names(cmds)
 
 def _oracle_data(arg):
-    _, info = _execute(arg, want_info=True)
+    try:
+        _, info = _execute(arg, want_info=True)
+    except U.Timeout:
+        return ([], [])
     return (info['reads'], U.fmt_table(info['fmt']))
 
 def _oracle_worker(chunk):
@@ -121,13 +128,14 @@ def _oracle_worker(chunk):
 
 def model_arg(fn, arg):
     cmds = arg[0]
+    names = U.all_names(cmds)
     reads, fmt, cw = [], [], []
-    if _needs_run(cmds):
+    if 'format.name$' in names or 'read' in [S(c[0]).lower() for c in cmds]:
         d = _ORACLE_DATA.get(_key(arg))
         if d is None:
             d = _oracle_data(arg)
         reads, fmt = d
-    if 'width$' in U.all_names(cmds):
+    if 'width$' in names:
         cw = U.cw_table(arg)
     return [cmds, arg[1], reads, fmt, cw, FUEL]
 
